@@ -8,7 +8,7 @@ HOOK_COMMITS = ["5813a3f", "8aaeb31", "49a079c", "e25d13c"]
 CHECKS = {
  "C01": ("HIST", "model-based property testing: generated DHCP histories, grant-ledger invariant (proptest, shrunk to replay)", "exploration",
          "Every generated history of DISCOVER/REQUEST x clock advance x pool change x reopen kept the invariant that no address is granted to a client while the harness's ledger shows another client's unexpired grant. Exploration: held on everything generated; says nothing about ungenerated histories.",
-         "Trusted: the harness ledger and identity rule; H2 time-shift equivalence (pool only compares stored times with now); SQLite. Server-internal task interleaving is not enumerated.", "3/C01"),
+         "Trusted: the harness ledger and identity rule; H2 time-shift equivalence (pool only compares stored times with now); SQLite. Server-internal task interleaving is not enumerated; it is exercised by the wire-race tier of the same command (2..32 clients racing in bursts of back-to-back frames for a pool of 1..6 addresses against the real erbium-dhcp; oracle: address -> client is a function over all captured OFFER/ACK frames and agrees with the store; needs namespaces).", "3/C01"),
  "C09": ("HIST", "model-based property testing: pre/post-state relation on the observed lease table over generated histories", "exploration",
          "For every generated step the reply satisfies the keep-your-address relation computed from the lease table observed before the call; refusals only when every pool address is held unexpired by someone else.",
          "Trusted: harness reading of the table via get_leases; clock-edge steps (row within 1 s of now) are skipped and counted.", "3/C09"),
@@ -48,7 +48,7 @@ CHECKS = {
          "Trusted: the harness's RFC decoder and expectation model; yaml-rust's emitter (cases whose emitted text does not re-parse to the intended tree are skipped and counted). The mtu/lifetime tri-state resolution lives in the impure wrapper and is decided by the wire tier of the same command: nine combinations through the real erbium (router solicitation injected, advertisement captured, hop limit 255 and ICMPv6 checksum verified).", "3/C17"),
  "C19": ("CONF", "complete enumeration of the single-substitution family over the reference documents + generated double substitutions and byte/token mutations through the real loader; serve-smoke of every accepted configuration; crash oracle", "exploration",
          "The manual's examples and the shipped example load; no document of the enumerated family or of the generated mutations makes the loader panic or return an empty error; no accepted configuration makes DHCP handling, RA building or ACL decisions panic.",
-         "Documents asking for explicit pools above 2^17 addresses, nesting deeper than 64 or using YAML aliases are not executed (counted): resource exhaustion by eager enumeration is not judged. DNS serving with accepted route tables is decided on the wire tier.", "3/C19"),
+         "Documents asking for explicit pools above 2^17 addresses, nesting deeper than 64 or using YAML aliases are not executed (counted): resource exhaustion by eager enumeration is not judged. DNS serving is decided by the wire-dns-smoke tier of the same command: generated dns-routes sections through the real loader, every accepted one served by a fresh erbium-dns and queried under every suffix with and without RD over UDP and TCP (a response to every question, no panic line; needs namespaces). The thorough tier adds a libFuzzer campaign on the loader + serve-smoke.", "3/C19"),
  "C02": ("CONF+HIST", "model-based property testing: generated configurations through the real loader; documented address set from an independent model; set equality by drain / membership probes", "exploration",
          "For every generated configuration and requesting client/interface, the set of addresses actually leasable (drained with fresh client identifiers, or probed at every boundary for large pools) equals the set the manual documents: no network/broadcast/server address, nothing reserved by a more specific policy, every documented host address leasable, single-address reservations exclusive.",
          "Trusted: the harness's model of erbium.conf(5). Unconstrained where the manual is silent (explicit pools naming the server's own or network/broadcast addresses; sibling overlap). Prefix lengths 22..30 in the generator; /8../21 only by the eager-size argument (the expansion code is length-independent).", "3/C02"),
